@@ -101,7 +101,11 @@ func main() {
 		}
 	case "C24":
 		e.Rep.Rule = consRule
-		n := e.N(150, 1500)
+		for _, w := range consWitnesses() {
+			e.Rep.Hit("witness")
+			runCase(w)
+		}
+		n := e.N(40, 1200)
 		for i := 0; i < n; i++ {
 			runCase(genConsProgram(e.Rng.Fork()))
 		}
